@@ -5,7 +5,7 @@ import ast
 
 from ..terms import FALSE, NONE, TRUE, T, conj, const, const_value, contains, glob, mk, root_of, show, subterms
 from .c04 import EXTEND, NP, TO, routines
-from .common import M_TC, M_TO, Analysis, arg, calls_to, dominates, kw, pc_literals, stores_attr
+from .common import M_TC, M_TO, Analysis, arg, calls_to, dominates, kw, pc_literals, stores_attr, zero_over_runtime
 
 
 def check(ctx):
@@ -99,7 +99,7 @@ def _simple(ctx, d):
         b = {"old": old, "g": grp, "n": A.at(e, "len(labels)"), "cy": mk("sub", ic.data["result"], const("y")), "len": glob("builtins.len")}
         ok = A.eq(e.data["value"], A.spec("old + (len(g) / n) * cy", b)) and old.op == "loopvar"
         init = old.args[2] if old.op == "loopvar" else None
-        ok = ok and init is not None and A.eq(init, A.spec("0 * grid", {"grid": d["grid"]}))
+        ok = ok and init is not None and A.eq(init, A.spec("0 * grid", {"grid": d["grid"]})) and not zero_over_runtime(init)
         name = e.data["name"]
         ok = ok and A.eq(ib.data["value"].args[0].args[0], A.at(ib, name))
     ctx.ob("R05.2", fq, acc[0].node if acc else None, ok, "overall objective = sum over groups of (len(group)/n) * y_g(grid), "
@@ -135,6 +135,12 @@ def _eo(ctx, d):
     call = A.spec("M[o](c)", {"M": md, "o": A.at(ib, "self.objective"), "c": e.data["result"]})
     ok = contains(obj, lambda s: s is call) and A.eq(ib.data["value"].args[0].args[0], obj)
     rounded = obj.op == "call" and obj.args[0] is glob("numpy.around")
+    if rounded:
+        dec = obj.args[1][1] if len(obj.args[1]) > 1 else dict(obj.args[2]).get("decimals")
+        fine = dec is not None and dec.op == "const" and isinstance(const_value(dec), int) and const_value(dec) >= 10
+        ctx.ob("R05.2", fq, ib.node, fine, "the objective is rounded only to remove floating-point noise (>= 10 decimals)" if fine else
+               "the objective is rounded coarsely before the arg-max: distinct objective values tie and the first, not the best, "
+               "grid point is chosen", construct="eo: rounding precision")
     ok = ok and ib.data["value"].args[0].args[1] in ("idxmax", "argmax")
     ctx.ob("R05.2", fq, ib.node, ok, "the index maximises METRIC_DICT[objective] of those counts" + (" (rounded to 15 digits)" if rounded else ""),
            construct="eo: objective argmax")
